@@ -2,7 +2,7 @@
 from __future__ import annotations
 
 PROPERTY = "C14"
-ALPHABET = ["O", "N", "C", "*"]
+ALPHABET = ["O", "N", "C", "*", "", "x"]
 
 META = dict(
     bounds=dict(
@@ -10,7 +10,7 @@ META = dict(
               "x 1 (thorough 2) long-lived rules, cache sizes 1, 2 and unbounded, forward and backward; id() values of the substrate "
               "objects are solver variables under CPython's contract (objects alive together have distinct ids), contents "
               "are solver variables too; BatchReactor.fit (serial) on every order of a 4-entry batch with look-alike "
-              "substrates, cache on/off/tiny, dedupe on/off, against single-entry runs; batched versus one-shot clustering incl. an existing representative library in another order (two lists, harness shared with C13)",
+              "substrates, cache on/off/tiny, dedupe on/off, against single-entry runs; batched versus one-shot clustering incl. an existing representative library in another order (five lists of 3-4 graphs, harness shared with C13; one of them with a solver-chosen, possibly empty pre-grouping attribute that is not determined by the graph)",
         thorough="k<=4 entries x 3 rules",
     ),
     outside=["loky / ProcessPoolExecutor scheduling and worker counts (entry_n_jobs, rule_n_jobs > 1)",
@@ -145,11 +145,11 @@ def h_batch(E, n):
     E.observe([o.get("count") for o in out])
 
 
-def h_cluster(E, shapes, use_attr):
+def h_cluster(E, shapes, use_attr, **kw):
     """batched versus one-shot clustering, incl. an existing library held in another order (harness shared with C13)"""
     from harness.c13 import h_cluster as hc
 
-    hc(E, shapes, use_attr)
+    hc(E, shapes, use_attr, **kw)
 
 
 HARNESSES = {"cache": h_cache, "batch": h_batch, "cluster": h_cluster}
@@ -158,7 +158,10 @@ HARNESSES = {"cache": h_cache, "batch": h_batch, "cluster": h_cluster}
 def shards(tier, seed):
     sh = [dict(h="cache", params=dict(k=2, r=1)), dict(h="cache", params=dict(k=3, r=1)), dict(h="batch", params=dict(n=4)),
           dict(h="cluster", params=dict(shapes=["K2", "P3", "E2"], use_attr=True)),
-          dict(h="cluster", params=dict(shapes=["K2", "E2", "K2"], use_attr=False))]
+          dict(h="cluster", params=dict(shapes=["K2", "E2", "K2"], use_attr=False)),
+          dict(h="cluster", params=dict(shapes=["K2", "K2", "K2"], use_attr=True)),
+          dict(h="cluster", params=dict(shapes=["K2", "K2", "K2", "K2"], use_attr=True, carbon_only=True)),
+          dict(h="cluster", params=dict(shapes=["K2", "K2", "K2"], use_attr=False, free_attr=True, carbon_only=True))]
     if tier == "thorough":
         sh += [dict(h="cache", params=dict(k=3, r=2)), dict(h="batch", params=dict(n=5))]
     return sh
